@@ -276,7 +276,14 @@ def api_contracts(rep):
         selfo, planner = mk_planner(ex)
         q = SymObj(None, 'query', prov='param')
         q.known_not_none = True
-        q.fields['left'] = SymObj(None, 'query.left', prov='param')
+        # a UNION's left operand is a SELECT or again a UNION (chains nest to the left): three levels, the innermost one a SELECT
+        l1 = SymObj(None, 'query.left', prov='param')
+        l2 = SymObj(None, 'query.left.left', prov='param')
+        l3 = SymObj({ast.Select}, 'query.left.left.left', prov='param')
+        for o_ in (l1, l2, l3):
+            o_.known_not_none = True
+        l1.fields['left'], l2.fields['left'] = l2, l3
+        q.fields['left'] = l1
         found = SymSeq('found_params', lambda e, l: SymObj(None, l), prov='fresh')
 
         def gqp(ex_, a, k, node=None):
@@ -513,6 +520,11 @@ HISTORY_STATEMENTS = [
     ('select', 'select a, b from int.tab where a = ? and b > ?', [1, 2], [3, 4]),
     ('select-default', 'select a, b from tab where a = ? and b > ?', [1, 2], [3, 4]),
     ('update', 'update int.tab set a = ? where b = ?', [1, 2], [3, 4]),
+    ('union', 'select a from int.tab where a = ? union select a from int.tab2 where b = ?', [1, 2], [3, 4]),
+    ('union-all-second-arm', 'select a from int.tab union all select a from int.tab2 where b = ?', [1], [3]),
+    ('union-three', 'select a from int.tab where a = ? union select a from int.tab2 where b = ? union select a from int.tab3 where c = ?', [1, 2, 3], [4, 5, 6]),
+    ('select-subquery', 'select a from int.tab where a in (select b from int.tab2 where c = ?) and d = ?', [1, 2], [3, 4]),
+    ('insert-select', 'insert into int.tab (a) select b from int.tab2 where c = ?', [1], [3]),
 ]
 
 
@@ -560,6 +572,10 @@ def history_problems():
             out.append((f'reexecute.{name}', sql, f'driver failed: {type(e).__name__}: {e}'))
             continue
         if isinstance(fresh1, tuple) or isinstance(fresh2, tuple):
+            bad_ = fresh1 if isinstance(fresh1, tuple) else fresh2
+            if bad_[1] in ('PlanningException', 'IndexError', 'KeyError', 'AttributeError', 'TypeError'):
+                # one value per `?` of the text is the right number: being refused (or crashing) means the placeholders were miscounted
+                out.append((f'count.correct-number-refused.{name}', sql, f'execute with one value per placeholder ({len(v1)}): {bad_}'))
             continue
         if seq[0] != fresh1:
             out.append((f'first-execute.{name}', sql, f'first execute plans {seq[0]}, a fresh prepare+execute plans {fresh1}'))
